@@ -6,13 +6,19 @@ AXILiteClockDomainCrossing (specs/cdc/AxilCdcGraph.tla, contract AxilCdcContract
 A G-mode counterexample is replayed linearly on the reference evaluator (same edge schedule, same inputs, the
 metastable resolutions TLC chose) and re-judged by the trace module in T-mode before it is reported.
 T-mode (specs/cdc/CdcTrace.tla): ordinary two-clock simulations (litex.gen.sim.core.Simulator, fixed periods and
-phases, no injection) at realistic widths, one event per instant of the simulator's TimeManager with a rising edge."""
+phases, no injection) at realistic widths, one event per instant of the simulator's TimeManager with a rising edge.
+L2 lane (specs/cdc/CdcModel.tla, CdcModelM.tla, CdcModelConf.tla, harness/families/cdc_l2.py; DESIGN.md 9): register-level
+models of the crossings; conformance of the model to every G-mode edge (all metastable successors) and every T-mode instant,
+M-mode sweeps (unbounded drift, deeper FIFOs, wider buses at the shortest safe time-out, canaries replayed on the netlist),
+MODEL-DRIFT notes and drift-triggered escalation.  The model never gives a verdict."""
 import json
 import os
 
 from ..graphloop import GraphLoop
 from ..report import MachineryError, ROOT
 from ..families import cdc as fam
+from ..families import cdc_l2 as cl
+from .. import l2
 from .. import tlc as tlcmod
 from .. import tracecheck
 
@@ -169,6 +175,7 @@ def run_gmode(report, spec, cfg, seed, opts=None, log=print):
         try:
             res = gl.run()
             stc = gl.stats()
+            _l2_graph(report, gl)
             again = False
             if res.violated == "LegalAgrees":
                 raise MachineryError("CdcContract: Inputs and Legal disagree (specification error), state %r"
@@ -217,6 +224,7 @@ def run_canary(report, spec, cfg, clause, log=print):
                    workers=4, heap="4g")
     try:
         res = gl.run()
+        _l2_graph(report, gl)
     finally:
         gl.close()
     if res.violated != clause:
@@ -277,8 +285,175 @@ def run_jobs(report, jobs, tier, seed, log=print):
             run_canary(report, spec, fam.tla_cfg(spec), clause, log=log)
         elif job[0] == "t":
             run_tmode(report, tier, seed)
+        elif job[0] == "m":
+            run_mmode(report, tier, seed, log=log)
         else:
             raise ValueError(job[0])
+
+# ============================================================================================ L2 lane (DESIGN.md 9)
+# specs/cdc/CdcModel.tla: register-level models of AsyncFIFO(+Buffered) / _FIFOWrapper / ClockDomainCrossing,
+# BusSynchronizer and PulseSynchronizer.  They never give a verdict: (a) every edge of every G-mode graph - with the
+# complete set of metastable successors - and every instant of the T-mode runs must be reproduced by the model, else
+# MODEL-DRIFT (note, exit code unaffected) and escalation; (b) M-mode: model x Env x CdcContract at parameters the
+# stepper cannot afford; a counterexample found there counts only if it reproduces on the real netlist.
+def _l2_drifts(report, drifts):
+    seen = report.cov.setdefault("l2_drift_keys", [])
+    for d in drifts:
+        key = "%s/%s" % (d["clause"], json.dumps(d["m"], sort_keys=True))
+        if key in seen:          # one note per clause and model configuration
+            continue
+        seen.append(key)
+        if d["clause"] == "Projection":
+            txt = ("MODEL-DRIFT cdc: a register of the L2 model can no longer be found in the netlist of %s (%s); "
+                   "no verdict, the L1 checks of the real netlist decide" % (json.dumps(d["spec"], sort_keys=True), d["error"]))
+            if txt not in report.notes:
+                report.note(txt)
+                report.add(l2_model_drifts=1)
+        else:
+            l2.report_drifts(report, cl.LANE, [d])
+    report.add(l2_drift_specs=[d["spec"] for d in drifts])
+
+
+def _l2_graph(report, gl):
+    """conformance of the model to every edge computed for the DUTs of this GraphLoop (complete graph if the run
+    passed, the explored part if it stopped at a counterexample)"""
+    duts = cl.graph_cases(gl)
+    if not duts:
+        return
+    n, dr = cl.conformance(duts)
+    report.add(l2_graph_duts=sum(1 for d in duts if d["cases"]), l2_graph_edges=n,
+               l2_graph_edges_with_several_resolutions=sum(1 for d in duts for c in d["cases"] if len(c[3]) > 1))
+    _l2_drifts(report, dr)
+
+
+def _l2_run_job(job):
+    from .. import py312_tracer
+    py312_tracer.install()
+    spec, ev = job
+    return cl.run_cases(spec, [e[0] for e in ev], [e[1] for e in ev])
+
+
+def _l2_runs(report, pool, jobs, evs):
+    """the model against every instant of the T-mode runs (realistic widths, no injection: the model's `base` successor)"""
+    rjobs = []
+    for (spec, _), ev in zip(jobs, evs):
+        m = cl.model_cfg(spec)
+        if m is not None and m["dw"] + m["pw"] + 2 <= 30 and m["width"] <= 30:
+            rjobs.append((spec, ev))
+    duts = [d for d in pool.map(_l2_run_job, rjobs, chunksize=1) if d is not None]
+    n, dr = cl.conformance(duts)
+    report.add(l2_run_duts=sum(1 for d in duts if d["cases"]), l2_run_instants=n)
+    _l2_drifts(report, dr)
+
+
+def _norm(r):
+    return {k: (tuple(v) if isinstance(v, (list, tuple)) else v) for k, v in r.items()}
+
+
+def _mm_replay(spec, res):
+    """replay an M-mode counterexample on the real netlist: same edge schedule and inputs; at an instant with several
+    metastable resolutions the successor whose modelled registers equal the model's next state.  -> (events, picks,
+    bound) or None if the netlist does not follow the model's trace."""
+    from ..fhdl_step import Stepper
+    lasso = res.violated == "temporal"
+    steps = res.trace if lasso else res.trace[:-1]
+    ivs, want = [], []
+    for stt in steps:
+        iv, nr = stt["vars"].get("iv"), stt["vars"].get("nr")
+        if not isinstance(iv, (tuple, list)) or not isinstance(nr, dict):
+            if lasso:
+                raise MachineryError("M-mode lasso without inputs / successor registers")
+            break
+        ivs.append(tuple(iv))
+        want.append(_norm(nr))
+    bound = None
+    if lasso:
+        if res.back_to is None:
+            raise MachineryError("M-mode temporal counterexample without a loop")
+        k = res.back_to - 1
+        loop_iv, loop_want = ivs[k:], want[k:]
+        ivs, want = ivs + loop_iv * 2, want + loop_want * 2
+        unrolled = loop_iv * 3
+        bound = min(sum(1 for iv in unrolled if iv[0] in (1, 3)), sum(1 for iv in unrolled if iv[0] in (2, 3)))
+        bound = max(1, min(bound, len(unrolled) - len(loop_iv)))
+    made = fam.make(spec)
+    opts = made[3]
+    st = Stepper(made[0], made[1], made[2], clocks=tuple(opts["clocks"]), engine="ref", record_multireg=True)
+    try:
+        ix = l2.proj_index(st, cl.LANE.proj_path, spec)
+    except KeyError:
+        return None
+    state = st.reset_state
+    ev, picks = [], []
+    for iv, w in zip(ivs, want):
+        o, ds = st.step_meta(state, opts["strip_input"](iv), opts["cds_from_input"](iv))
+        hit = [i for i, x in enumerate(ds) if _norm(l2.project(ix, x)) == w]
+        if not hit:
+            return None
+        state = ds[hit[0]]
+        picks.append(hit[0])
+        ev.append([list(iv), list(o)])
+    return ev, picks, bound
+
+
+def run_mmode(report, tier, seed, log=print):
+    """M-mode sweep: groups of configurations, each one TLC run of CdcModelM.  `expect`: a canary (premise of the
+    property broken) - the clause MUST fail on the model, and the model's counterexample must reproduce on the netlist."""
+    stat = {"mmode_configs": 0, "mmode_states": 0, "mmode_wall_s": 0.0, "mmode_groups": [], "mmode_canaries": 0,
+            "mmode_canaries_reproduced_on_netlist": 0}
+    for grp in cl.mmode_configs(tier):
+        ents = grp["entries"]
+        res = l2.mmode(cl.LANE.m_module, [{"c": x["c"], "m": x["m"], "live": x["live"]} for x in ents], grp["invs"], grp["props"],
+                       timeout=grp.get("timeout", 1500 if tier == "quick" else 5400),
+                       workers=grp.get("workers", 6 if tier == "quick" else 8),
+                       heap=grp.get("heap", "8g"))
+        log("  M-mode %s: %d configuration(s), %d distinct states, depth %d, %.1fs%s" % (
+            grp["name"], len(ents), res.distinct, res.depth, res.wall, ", violated %s" % (
+                res.temporal_name if res.violated == "temporal" else res.violated) if res.violated else ""))
+        report.add(states=res.distinct, transitions=res.generated)
+        stat["mmode_configs"] += len(ents)
+        stat["mmode_states"] += res.distinct
+        stat["mmode_wall_s"] = round(stat["mmode_wall_s"] + res.wall, 1)
+        stat["mmode_groups"].append({"group": grp["name"], "what": grp["what"], "configs": len(ents), "states": res.distinct,
+                                     "transitions": res.generated, "depth": res.depth, "wall_s": round(res.wall, 1),
+                                     "clauses": list(grp["invs"]) + list(grp["props"]),
+                                     "expected_to_fail": grp.get("expect")})
+        clause = res.temporal_name if res.violated == "temporal" else res.violated
+        if grp.get("expect"):
+            stat["mmode_canaries"] += 1
+            if clause != grp["expect"]:
+                raise MachineryError("M-mode canary %s did not violate %s on the model: the model or the contract has lost "
+                                     "its sensitivity" % (grp["name"], grp["expect"]))
+        if not res.violated:
+            continue
+        x = ents[res.trace[0]["vars"]["d"] - 1]
+        spec = json.loads(json.dumps(x["spec"]))
+        rep = _mm_replay(spec, res)
+        tcl = _judge_linear("cdc/CdcTrace", x["c"], rep[0], clause, rep[2]) if rep is not None else []
+        if grp.get("expect"):
+            if tcl:
+                stat["mmode_canaries_reproduced_on_netlist"] += 1
+                report.note("M-mode canary %s violates %s on the model after %d instants, as it must; the counterexample "
+                            "reproduces on the real netlist" % (_describe(spec), clause, len(rep[0])))
+            else:
+                report.note("MODEL-DRIFT cdc: the model's counterexample of the canary %s (%s) does not reproduce on the real "
+                            "netlist; no verdict" % (_describe(spec), clause))
+                report.add(l2_model_drifts=1, l2_drift_specs=[spec])
+            continue
+        if tcl:
+            ev, picks, bound = rep
+            report.violation({"dut": spec, "clause": clause},
+                             {"mode": "G", "family": "cdc/CdcModelM", "trace_module": "cdc/CdcTrace", "spec": spec, "cfg": x["c"],
+                              "schedule": [e[0] for e in ev] if len(ev) <= 2000 else None,
+                              "picks": picks if len(ev) <= 2000 else None, "observed": ev[-400:], "clause": clause,
+                              "trace_clauses": tcl, "bound": bound},
+                             "%s violated by %s (found on the L2 model in M-mode, reproduced on the netlist) after %d instants" % (
+                                 clause, _describe(spec), len(ev)))
+        else:
+            report.note("MODEL-DRIFT cdc: M-mode counterexample to %s on the model of %s does not reproduce on the netlist; "
+                        "no verdict" % (clause, _describe(spec)))
+            report.add(l2_model_drifts=1, l2_drift_specs=[spec])
+    report.add(l2_mmode=stat)
 
 
 # ============================================================================================ lanes
@@ -347,6 +522,54 @@ def run_lanes(report, prop, tier, seed, lanes, par=6):
         raise MachineryError(" || ".join(errors))
 
 
+def _l2_summary(report):
+    c = report.cov
+    mm = c.get("l2_mmode", {})
+    report.add(l2_model={"module": "cdc/CdcModel", "graph_duts_judged": c.get("l2_graph_duts", 0),
+                         "graph_edges_judged": c.get("l2_graph_edges", 0),
+                         "graph_edges_with_several_resolutions": c.get("l2_graph_edges_with_several_resolutions", 0),
+                         "run_duts": c.get("l2_run_duts", 0), "run_instants_judged": c.get("l2_run_instants", 0),
+                         "drifts": c.get("l2_model_drifts", 0),
+                         "mmode_configs": mm.get("mmode_configs", 0), "mmode_states": mm.get("mmode_states", 0),
+                         "mmode_wall_s": mm.get("mmode_wall_s", 0), "mmode_canaries": mm.get("mmode_canaries", 0),
+                         "mmode_canaries_reproduced_on_netlist": mm.get("mmode_canaries_reproduced_on_netlist", 0),
+                         "mmode_largest": cl.MMODE_LARGEST.get(report.tier.split("-")[0], "")})
+
+
+# thorough-tier lanes that look at the DUT classes of a model class more deeply (in this order, at most ESC_MAX)
+ESCALATION = {"AsyncFIFO": ["fifo-buffered", "cdc-r2", "common-rst-live", "fifo-r3"], "Bus": ["sync"], "Pulse": ["sync"]}
+ESC_MAX = 3
+
+
+def _l2_escalate(report, prop, tier, seed):
+    """drift-triggered escalation: the code is no longer what was model-checked in M-mode and nothing has been reported -
+    the drifting classes are explored against the L1 contract at the thorough tier's parameters"""
+    specs = report.cov.get("l2_drift_specs", [])
+    if not specs or tier != "quick" or report.violations:
+        return
+    classes = sorted({cl.model_cfg(s_)["cls"] for s_ in specs if cl.model_cfg(s_) is not None})
+    want = []
+    for c in classes:
+        want += [x for x in ESCALATION.get(c, []) if x not in want]
+    want = want[:ESC_MAX]
+    quick = {json.dumps(j, sort_keys=True, default=list) for _, jobs in fam.lanes("quick") for j in jobs}
+    esc = []
+    for label, jobs in fam.lanes("thorough"):
+        if label in want:
+            jobs = [j for j in jobs if j[0] == "g" and json.dumps(j, sort_keys=True, default=list) not in quick]
+            if jobs:
+                esc.append(("esc-" + label, jobs))
+    report.note("escalation: model classes %s drifted; %d thorough-tier lane(s) explored against the L1 contract: %s" % (
+        classes, len(esc), [l for l, _ in esc]))
+    if not esc:
+        return
+    try:
+        run_lanes(report, prop, tier, seed, esc, par=4)
+    except MachineryError as ex:
+        report.note("escalation not completed (no verdict from it): %s" % str(ex)[:600])
+    report.add(lanes=[l for l, _ in esc])
+
+
 def run(prop, report, tier, seed):
     report.assume("metastability = per-bit old/new resolution of a synchroniser's first flop when its source changes "
                   "at a coinciding destination edge; FIFO crossings: free edge interleaving within the drift bound; bus "
@@ -369,9 +592,23 @@ def run(prop, report, tier, seed):
     order = ["axil-write", "fifo-buffered", "fifo-r3", "common-rst-data", "cdc-r2", "fifo-r2", "common-rst-live",
              "common-rst-r3", "common-rst"]
     lanes.sort(key=lambda x: order.index(x[0]) if x[0] in order else len(order))
+    # L2 lane: conformance happens inside the G-mode and T-mode lanes; M-mode (pure TLC, no code involved) is a lane of its own
+    lanes.append(("l2-mmode", [("m",)]))
+    if only:
+        lanes = [l for l in lanes if l[0] in only]
+    report.assume("L2 (specs/cdc/CdcModel.tla): register-level models of migen AsyncFIFO / AsyncFIFOBuffered (Gray counters, both "
+                  "pointer synchronisers, storage, read-port address register) inside stream._FIFOWrapper / AsyncFIFO / "
+                  "ClockDomainCrossing (also with_common_rst), of LiteX's BusSynchronizer (ping/pong PulseSynchronizers, ping_o "
+                  "flop, WaitTimer, ibuffer, obuffer) and of PulseSynchronizer; they give no verdict - every edge of the G-mode "
+                  "graphs with the complete set of its metastable successors and every instant of the T-mode runs must be "
+                  "reproduced by the model (else MODEL-DRIFT and escalation), and the model is checked against the same contract "
+                  "in M-mode (unbounded clock drift for the FIFOs, deeper FIFOs, wider buses with the shortest safe time-out); "
+                  "AXILiteClockDomainCrossing and the collapsed cd_from=\"read\"/cd_to=\"write\" crossing have no model")
     run_lanes(report, prop, tier, seed, lanes, par=5 if tier == "thorough" else 4)
     report.add(lanes=[l for l, _ in lanes])
     report.add(clauses={"stream / bus / pulse": INVS + PROPS, "axi-lite": AXIL_INVS + AXIL_PROPS, "t-mode": T_INVS})
+    _l2_escalate(report, prop, tier, seed)
+    _l2_summary(report)
     if only:
         return
     if report.cov.get("edges_with_several_metastable_resolutions", 0) == 0:
@@ -574,6 +811,7 @@ def run_tmode(report, tier, seed, nproc=6):
     pool = mp.get_context("fork").Pool(nproc)
     try:
         evs = pool.map(_sim_job, jobs, chunksize=1)        # order of `jobs` is kept: deterministic
+        _l2_runs(report, pool, jobs, evs)
     finally:
         pool.terminate()
     traces = [{"cfg": _tmode_cfg(spec), "ev": ev} for (spec, _), ev in zip(jobs, evs)]
